@@ -94,6 +94,9 @@ func runC15(s *Sim) {
 		step = Pick(t, "big-step", time.Minute, 7*time.Second, 10*time.Minute)
 	}
 	brokerPings := 0
+	// a pong nobody asked for (foreign request id) shortly before the broker falls silent: it answers
+	// no ping, the silence is detected as early as without it
+	strayPong := mode == "dead" && t.Bool("stray-pong-before-silence", 1, 3)
 	// inbound end-to-end calls that the application never picks up (it does not use ReceiveCall):
 	// they must not get in the way of the keepalive exchange
 	unconsumed := 0
@@ -101,6 +104,18 @@ func runC15(s *Sim) {
 		unconsumed = Pick(t, "unconsumed-n", 5, 12, 40, 300)
 	}
 	for s.Now() < horizon {
+		if strayPong && s.Now()+step >= silentAt {
+			strayPong = false
+			if b, err := l0.encode(&message.Pong{RequestID: 999998}); err == nil {
+				s.mu.Lock()
+				ok := !l0.isDead && !l0.clientClosed
+				s.mu.Unlock()
+				if ok {
+					l0.rx <- b
+					s.Stat("env.stray-pong-with-foreign-id")
+				}
+			}
+		}
 		if unconsumed > 0 && s.Now() > iv/2 {
 			for _, l := range y.aliveLinks() {
 				for k := 0; k < unconsumed; k++ {
